@@ -259,9 +259,6 @@ func runCheck(cfg *config, spec *engineSpec) int {
 	if err := writeJSON(filepath.Join(cfg.outDir, "evidence", spec.property+".json"), ev); err != nil {
 		die2("write evidence: %v", err)
 	}
-	if rc.runs == 0 {
-		die2("no simulated run completed")
-	}
 	for _, l := range knownHit {
 		fmt.Println(l)
 	}
@@ -286,6 +283,9 @@ func runCheck(cfg *config, spec *engineSpec) int {
 	}
 	if len(unknown) > 0 {
 		return 1
+	}
+	if rc.runs == 0 {
+		die2("no simulated run completed")
 	}
 	if len(unconfirmed) > 0 {
 		// failures seen in the search that no replay confirmed: the simulator is not
@@ -340,7 +340,7 @@ func (rc *runCtx) minimise(f *failure, shrink bool) *replayFile {
 	if tape == nil {
 		tape = rawTape(f.Seed, f.Run, 1<<15)
 	}
-	timeout := 300 * time.Second
+	timeout := 150 * time.Second
 	// Replay in a fresh process. A simulated run is a pure function of its tape unless the
 	// code under test has concurrency the simulator does not own (e.g. a change that makes
 	// handlers race inside one step): then a replay may show another violation, or none.
@@ -377,8 +377,8 @@ func (rc *runCtx) minimise(f *failure, shrink bool) *replayFile {
 	}
 	before := len(sh.best)
 	unshrunk := sh.best
-	if shrink && stable {
-		sh.run()
+	if shrink && stable && !strings.HasSuffix(strings.SplitN(want, "|", 2)[0], ".hang") {
+		sh.run() // (a hang costs a full watchdog period per attempt: not minimised)
 	}
 	// final replay with the full log, in a fresh process
 	var final *evalResult
